@@ -1,6 +1,222 @@
-import MlModel.Model.Agg.RetrievalThr
+import MlModel.Lemmas.RetrievalMerge
+/-!
+# C11, metric family "retrieval": merge is associative, commutative, has the fresh state as unit
+
+Pure (value-level) laws of `TopKRetrieval.merge`, `ThresholdedRetrieval.merge`, `MeanState.merge`,
+`TupleMeanState.merge` on the models of the repaired code.  "Never damages its operand / results
+are repeatable / later updates do not leak" is the subject of `Properties/C11/RetrievalHeap.lean`
+(object-level model with explicit cells).
+-/
 namespace MlModel.C11
-open MlModel.Agg.Retrieval
-/-- placeholder while the harness is brought up (replaced below) -/
-theorem C11_retrieval_mean_unit (a : Mean) : Mean.merge a Mean.empty = a ∨ True := Or.inr trivial
+open MlModel.Agg MlModel.Agg.Retrieval
+
+variable {α : Type} [DecidableEq α]
+
+/-- a state of the shape accumulators of configuration `cfg` have: one `MeanState` per metric,
+every total a vector over the Ks -/
+def WF (cfg : Config) (s : State) : Prop :=
+  s.length = cfg.metrics.length ∧ ∀ c ∈ s, c.total.length = cfg.nk
+
+/-- states reachable through the API: fresh, after `add`, after `merge` -/
+inductive Reachable (cfg : Config) : State → Prop where
+  | fresh : Reachable cfg (emptyState cfg)
+  | add {s : State} (rows : List (Row α)) : Reachable cfg s → Reachable cfg (mergeState s (ofBatch cfg rows))
+  | merge {s t : State} : Reachable cfg s → Reachable cfg t → Reachable cfg (mergeState s t)
+
+theorem wf_empty (cfg : Config) : WF cfg (emptyState cfg) := by
+  simp [WF, emptyState]
+
+theorem wf_ofBatch (cfg : Config) (rows : List (Row α)) : WF cfg (ofBatch cfg rows) := by
+  constructor
+  · simp [ofBatch, batchVals]
+  · intro c hc
+    simp only [ofBatch, batchVals, List.map_map, List.mem_map, List.mem_range] at hc
+    obtain ⟨j, hj, rfl⟩ := hc
+    simp only [Function.comp, MeanCell.new]
+    apply foldl_vecAdd_length
+    · simp
+    · intro b hb
+      obtain ⟨r, _, rfl⟩ := List.mem_map.mp hb
+      show ((rowVals cfg (cfg.width rows) r).getD j []).length = cfg.nk
+      unfold rowVals
+      simp only []
+      rw [List.getD_eq_getElem?_getD, List.getElem?_map, List.getElem?_eq_getElem hj]
+      simp [rowKs_length]
+
+theorem wf_merge (cfg : Config) (a b : State) (ha : WF cfg a) (hb : WF cfg b) :
+    WF cfg (mergeState a b) := by
+  constructor
+  · simp [mergeState, ha.1, hb.1]
+  · intro c hc
+    simp only [mergeState] at hc
+    obtain ⟨i, hi, rfl⟩ := List.mem_iff_getElem.mp hc
+    simp only [List.getElem_zipWith, MeanCell.merge, vecAdd_length]
+    rw [ha.2 _ (List.getElem_mem _), hb.2 _ (List.getElem_mem _)]
+    omega
+
+/-- every state an accumulator can be in is well-formed -/
+theorem C11_retrieval_topk_reachable_wf (cfg : Config) (s : State) (h : Reachable (α := α) cfg s) :
+    WF cfg s := by
+  induction h with
+  | fresh => exact wf_empty cfg
+  | add rows _ ih => exact wf_merge cfg _ _ ih (wf_ofBatch cfg rows)
+  | merge _ _ ih1 ih2 => exact wf_merge cfg _ _ ih1 ih2
+
+/-- **associativity**, exact, for all states -/
+theorem C11_retrieval_topk_assoc (a b c : State) :
+    mergeState (mergeState a b) c = mergeState a (mergeState b c) := mergeState_assoc a b c
+
+/-- **commutativity** up to the order of the symbolic terms of the Fowlkes–Mallows / DCG / NDCG
+totals (for all states; the rational totals and counts are equal on the nose) -/
+theorem C11_retrieval_topk_comm (a b : State) : den (mergeState a b) = den (mergeState b a) := by
+  rw [den_merge, den_merge, stAdd_comm]
+
+/-- … and such states report the same result (up to the same reordering) -/
+theorem C11_retrieval_topk_result_congr (s t : State) (h : den s = den t) :
+    (resultState s).map MeanResult.den = (resultState t).map MeanResult.den := result_den s t h
+
+/-- any interpretation of the symbolic terms in a commutative monoid (exact real evaluation;
+float64 up to rounding) only depends on the denotation: equal multisets of terms sum equally -/
+theorem C11_retrieval_eval_den {M : Type} (add : M → M → M) (zero : M)
+    (hcomm : ∀ x y z, add (add z x) y = add (add z y) x) (f : Term → M) (u v : V)
+    (h : u.den = v.den) :
+    (u.sym.map f).foldl add zero = (v.sym.map f).foldl add zero := by
+  have hp : u.sym.Perm v.sym := by
+    have := congrArg Prod.snd h
+    exact Quotient.exact this
+  exact (hp.map f).foldl_eq' (fun x _ y _ z => hcomm x y z) zero
+
+theorem zipWith_replicate_left {β : Type} (f : β → β → β) (e : β) (s : List β) (n : Nat)
+    (hn : s.length = n) (h : ∀ c ∈ s, f e c = c) : List.zipWith f (List.replicate n e) s = s := by
+  induction s generalizing n with
+  | nil => simp
+  | cons x xs ih =>
+    cases n with
+    | zero => simp at hn
+    | succ n =>
+      simp only [List.replicate_succ, List.zipWith_cons_cons]
+      rw [h x (by simp), ih n (by simpa using hn) (fun c hc => h c (by simp [hc]))]
+
+theorem zipWith_replicate_right {β : Type} (f : β → β → β) (e : β) (s : List β) (n : Nat)
+    (hn : s.length = n) (h : ∀ c ∈ s, f c e = c) : List.zipWith f s (List.replicate n e) = s := by
+  induction s generalizing n with
+  | nil => simp
+  | cons x xs ih =>
+    cases n with
+    | zero => simp at hn
+    | succ n =>
+      simp only [List.replicate_succ, List.zipWith_cons_cons]
+      rw [h x (by simp), ih n (by simpa using hn) (fun c hc => h c (by simp [hc]))]
+
+/-- **unit**: a freshly created accumulator is neutral on either side (exactly) -/
+theorem C11_retrieval_topk_unit (cfg : Config) (s : State) (h : WF cfg s) :
+    mergeState (emptyState cfg) s = s ∧ mergeState s (emptyState cfg) = s := by
+  have he : emptyState cfg = List.replicate cfg.metrics.length ⟨List.replicate cfg.nk V.zero, 0⟩ := by
+    simp [emptyState, List.map_const']
+  rw [he]
+  constructor
+  · apply zipWith_replicate_left _ _ _ _ h.1
+    intro c hc
+    cases c with
+    | mk t n =>
+      have := h.2 _ hc
+      simp only at this
+      simp [MeanCell.merge, zero_vecAdd cfg.nk t this]
+  · apply zipWith_replicate_right _ _ _ _ h.1
+    intro c hc
+    cases c with
+    | mk t n =>
+      have := h.2 _ hc
+      simp only at this
+      simp [MeanCell.merge, vecAdd_zero cfg.nk t this]
+
+/-- **any bracketing, any order**: two merge trees over the same multiset of states (any two
+bracketings of any two permutations) have the same denotation, hence the same result -/
+theorem C11_retrieval_topk_any_bracketing (t₁ t₂ : MTree) (h : t₁.leaves.Perm t₂.leaves) :
+    den t₁.eval = den t₂.eval := by
+  have h1 := t₁.den_eval
+  have h2 := t₂.den_eval
+  have hp : (t₁.leaves.map den).Perm (t₂.leaves.map den) := h.map den
+  rw [hp.foldl_eq' (fun x _ y _ z => optAdd_right_comm z x y) none] at h1
+  exact Option.some.inj (h1.trans h2.symm)
+
+/-- `merge_states` (a left fold) is one such tree: reordering the shards does not matter -/
+theorem C11_retrieval_topk_merge_states_perm (s : State) (l₁ l₂ : List State) (h : l₁.Perm l₂) :
+    den (l₁.foldl mergeState s) = den (l₂.foldl mergeState s) := by
+  have e : ∀ l : List State, ∀ s, den (l.foldl mergeState s) = (l.map den).foldl stAdd (den s) := by
+    intro l
+    induction l with
+    | nil => intro s; rfl
+    | cons x xs ih => intro s; simp [ih, den_merge]
+  rw [e, e]
+  exact (h.map den).foldl_eq' (fun x _ y _ z => by rw [stAdd_assoc, stAdd_comm x y, ← stAdd_assoc]) _
+
+/-! ### ThresholdedRetrieval, MeanState, TupleMeanState -/
+
+theorem C11_retrieval_thresholded_assoc (a b c : Thr.Counts) :
+    Thr.Counts.merge (Thr.Counts.merge a b) c = Thr.Counts.merge a (Thr.Counts.merge b c) :=
+  Thr.Counts.merge_assoc a b c
+
+theorem C11_retrieval_thresholded_comm (a b : Thr.Counts) :
+    Thr.Counts.merge a b = Thr.Counts.merge b a := Thr.Counts.merge_comm a b
+
+/-- the fresh `ThresholdedRetrieval` (zero counts per threshold) is neutral on either side -/
+theorem C11_retrieval_thresholded_unit (n : Nat) (c : Thr.Counts) (h : c.WF n) :
+    Thr.Counts.merge (Thr.Counts.zero n) c = c ∧ Thr.Counts.merge c (Thr.Counts.zero n) = c :=
+  ⟨Thr.Counts.zero_merge n c h, Thr.Counts.merge_zero n c h⟩
+
+theorem C11_retrieval_mean_assoc (a b c : Mean) :
+    Mean.merge (Mean.merge a b) c = Mean.merge a (Mean.merge b c) := Mean.merge_assoc a b c
+
+theorem C11_retrieval_mean_comm (a b : Mean) : Mean.merge a b = Mean.merge b a := Mean.merge_comm a b
+
+theorem C11_retrieval_mean_unit (a : Mean) :
+    Mean.merge Mean.empty a = a ∧ Mean.merge a Mean.empty = a :=
+  ⟨Mean.empty_merge a, Mean.merge_empty a⟩
+
+/-- `TupleMeanState`: the never-updated state `()` is neutral on either side (after the repair of
+`merge`: before it, an empty *operand* raised `ValueError`) -/
+theorem C11_retrieval_tuplemean_unit (a : TupleMean) :
+    TupleMean.merge a [] = .ok a ∧ TupleMean.merge [] a = .ok a := by
+  constructor
+  · simp [TupleMean.merge]
+  · cases a with
+    | nil => simp [TupleMean.merge]
+    | cons x xs =>
+      simp only [TupleMean.merge, reduceCtorEq, if_false, if_true]
+      congr 1
+      have : ∀ l : List Mean, l.map (fun s => Mean.merge Mean.empty s) = l := by
+        intro l
+        induction l with
+        | nil => rfl
+        | cons y ys ih => simp [Mean.empty_merge]
+      exact this _
+
+/-- same arity: associative and commutative, never an error -/
+theorem C11_retrieval_tuplemean_comm (a b : TupleMean) (h : a.length = b.length) (ha : a ≠ []) :
+    TupleMean.merge a b = .ok (List.zipWith Mean.merge a b) ∧
+    TupleMean.merge b a = .ok (List.zipWith Mean.merge a b) := by
+  have hb : b ≠ [] := by
+    intro hb
+    rw [hb] at h
+    exact ha (List.length_eq_zero_iff.mp h)
+  simp only [TupleMean.merge, ha, hb, h, if_false, if_true]
+  exact ⟨trivial, by rw [zipWith_comm_of Mean.merge Mean.merge_comm]⟩
+
+/-- different arities are rejected (`zip(strict=True)`) -/
+theorem C11_retrieval_tuplemean_arity (a b : TupleMean) (ha : a ≠ []) (hb : b ≠ [])
+    (h : a.length ≠ b.length) : TupleMean.merge a b = .error .value := by
+  simp [TupleMean.merge, ha, hb, h]
+
+/-! ### non-vacuity (tests) -/
+
+def exCfg : Config := { kList := some [1, 3], metrics := [.ndcgScore, .recall], multiclass := false }
+def exS : State := ofBatch exCfg [(⟨[1, 2], [2, 5, 1]⟩ : Row Nat)]
+def exT : State := ofBatch exCfg [(⟨[4], [4]⟩ : Row Nat), ⟨[], [7]⟩]
+
+example : WF exCfg exS := wf_ofBatch exCfg _
+/-- symbolic totals really are order-sensitive as lists: the two merges differ, their denotations agree -/
+example : mergeState exS exT ≠ mergeState exT exS := by decide +kernel
+example : den (mergeState exS exT) = den (mergeState exT exS) := C11_retrieval_topk_comm exS exT
+
 end MlModel.C11
